@@ -923,8 +923,8 @@ func TestVerifC03Forward(t *testing.T) {
 					"retry-policy": cfg.RetryAttempts > 0, "retry-after-failed-attempts": len(p.Pre) > 0, "retry-after-failed-attempts-with-body": len(p.Pre) > 0 && q.BodyN > 0,
 					"backend-cuts-body": p.Cut, "backend-cuts-body-stream": p.Cut && vfC03RespStream(cfg), "backend-cuts-body-stream-recoded": p.Cut && vfC03RespStream(cfg) && (cfg.RespAdaptor != "" || vfC03CompressApplies(cfg, &q, &p)),
 					"mirrorPool": cfg.Mirror, "mirrored-request": mirrored, "mirrored-request-with-body": mirrored && q.BodyN > 0, "mirrored-stream-request-with-body": mirrored && q.BodyN > 0 && vfC03ReqStream(cfg),
-					"mirrored-request:copy-seen-by-mirror-server": mirrored && len(rig.mirrored()) > 0,
-					"failureCodes-configured":                     len(cfg.FailureCodes) > 0, "failureCodes-without-retry-policy": len(cfg.FailureCodes) > 0 && cfg.RetryAttempts == 0,
+					"mirrored-request:copy-seen-by-mirror-server": mirrored && len(rig.mirrored()) > 0, "mirrored-request:copy-not-seen-within-join-wait": mirrored && len(seen) > 0 && len(rig.mirrored()) == 0,
+					"failureCodes-configured": len(cfg.FailureCodes) > 0, "failureCodes-without-retry-policy": len(cfg.FailureCodes) > 0 && cfg.RetryAttempts == 0,
 					"failure-code-final-answer": failFinal, "failure-code-final-answer-with-body": failFinal && p.BodyN > 0 && q.Method != "HEAD", "failure-code-final-answer-with-headers": failFinal && len(p.E2E) > 0,
 					"failure-code-final-answer-retried": failFinal && len(seen) > 1, "failure-code-final-answer-respadaptor-skipped": failFinal && cfg.RespAdaptor != "",
 					"memoryCache-head-and-get-of-one-url": repMethods != nil, "memoryCache-get-after-head-of-same-url": prevMethod == "HEAD" && q.Method == "GET", "memoryCache-head-after-get-of-same-url": prevMethod == "GET" && q.Method == "HEAD",
